@@ -286,18 +286,22 @@ func (c *converter) syncPartial() {
 	c.syncChangedEndpoints()
 }
 
-// trackStrictHosts links the default host with the hosts that borrow its root path.
+// trackStrictHosts links the default host with the hosts that borrow, or might start
+// to borrow, its root path.
 //
 // If strict-host is enabled, a host without a root path receives the root path of
 // the default host, or the default backend if there is no such path. This is done
-// by the haproxy model when the host is added, so such hosts need to be built again
-// whenever the default host changes.
+// by the haproxy model when the host is added, and it adds a path to the backend of
+// that root path as well. So such hosts need to be built again whenever the default
+// host changes, and the default host and its backends need to be built again whenever
+// a host starts to borrow the root path, which happens when a host is added or when
+// it loses its own root path.
 func (c *converter) trackStrictHosts() {
 	if !c.haproxy.Global().StrictHost {
 		return
 	}
 	for _, host := range c.haproxy.Hosts().ItemsAdd() {
-		if host.Hostname != hatypes.DefaultHost && host.FindPath("/", hatypes.MatchBegin) == nil {
+		if host.Hostname != hatypes.DefaultHost {
 			c.tracker.TrackNames(convtypes.ResourceHAHostname, hatypes.DefaultHost, convtypes.ResourceHAHostname, host.Hostname)
 		}
 	}
@@ -334,6 +338,10 @@ func (c *converter) trackAddedIngress() {
 			// the default backend is the root path of the default host,
 			// or the default tcp service of the port
 			c.tracker.TrackNames(convtypes.ResourceIngress, name, ctx, normalizeHostname("", port))
+		}
+		if port == 0 && c.haproxy.Global().StrictHost && c.haproxy.Hosts().FindHost(hatypes.DefaultHost) != nil {
+			// a new host without a root path borrows the one from the default host
+			c.tracker.TrackNames(convtypes.ResourceIngress, name, ctx, hatypes.DefaultHost)
 		}
 		if port == 0 {
 			// hosts might be declared only in the tls attribute
